@@ -3,6 +3,7 @@ import BoboVerif.Lemmas.Tcp
 import BoboVerif.Props.C15
 import BoboVerif.Props.C06
 import BoboVerif.Lemmas.TcpRestart
+import BoboVerif.Lemmas.TcpClusterRestart
 /-!
 C07 (transport side) — the restart announcement survives every interleaving of the survivor's two threads.
 
@@ -345,5 +346,350 @@ example :
     ¬ (baseAfter 1 P0 bot steps ≤ (prun 1 P0 steps).knowJ) := by decide
 
 end Restart
+
+/-! ---------------------------------------------------------------------------------------------
+## C07 on the whole cluster: restarts of INSTANCES (Lemmas/TcpClusterRestart.lean)
+
+The cluster model of the last section of Props/C06.lean (`Cluster n`, `CStep`: say / pass / deliver / redeliver /
+incoming) with one more step, `RStep.restart r keep` (wrapper `RStep n` / `RCluster n`; nothing of
+Lemmas/TcpCluster.lean is changed).  `restart r keep`, any number of times, any instances, anywhere in the run:
+
+  * `r` loses what it knows (`know r := bot`) and its transport state is that of a fresh instance (`freshT`: empty
+    queue, every device manager `Peer.init true`: `last_comms = last_attempt = 0`, `flag_reset = True`, empty
+    backlogs — the state of `restart_announces` above);
+  * what is on the wires TO `r` survives or not (`keep`); what `r` had put on the wires FROM `r` stays;
+  * every other instance handles `r`'s RESET AT THE RESTART (`incoming a r FLAG_RESET` for all `a ≠ r`): this is
+    what the pair step `restartJ keep` does to its one sender, so `restart r keep` projects onto `restartJ keep` for
+    every pair `(a, r)` (`proj_restart_receiver`), onto `incoming r FLAG_RESET` for every pair `(a, b)`, `r ∉ {a, b}`
+    (`proj_restart_other`), and the pair invariants `PInv` / `BInv` are transported step by step.  (With the RESET
+    handled at a later step the pair invariant is false in between, and since the wires of the model carry no
+    flags nothing would force that step to happen before the end of the run.)
+  * for the pairs `(r, b)` — the restarted instance as a SENDER — the pair run ends and a new one starts from an
+    initial pair state (`proj_restart_sender`, `pinv_init`); the ghost `own r` is reset: `own` = announced SINCE
+    the last restart (`ownSince`).  Ghosts that are never reset: `said` (everything ever announced);
+    `lost r` (everything `r` had announced when it last restarted, `lost_spec`);
+    `owed i r` (what `i` knew when `r` last restarted, `owed_spec`; the ghost `base` of the pair `(i, r)`).
+
+Clocks: `RMono` — per instance the decision clocks never go backwards, ACROSS its restarts too (wall clock); this
+is what carries the epoch-clock condition `period_resync ≤ clock` over a restart of the sender.  `RInit` =
+`CInit` (Props/C06.lean) + no ghost of a restart.  No other hypothesis.
+
+Results (all for every run, every number of restarts of any instances at any points):
+  1. `restarted_instance_recovers_cluster` — at idle every instance `j` (restarted or not) knows everything a
+     never-restarted `i ≠ j` EVER announced.  TRUE AS STATED.
+  2. the second half of the statement asked for — "`know i ≤ know r` at idle for never-restarted `i`, restarted
+     `r`" — is FALSE (`lateRun`: what `r` itself had handed to the network before its restart reaches `i` after
+     `i`'s RESYNC to `r`); `restarted_instance_knows_survivors_partial`: at idle `r` knows everything `i` knew WHEN `r`
+     (LAST) RESTARTED, for every `i` not restarted since.
+  3. `ownSince_known_everywhere` — what ANY instance announced since its last restart is known everywhere at
+     idle; `lostKnown_partial` — whatever an `i` (not restarted since) knew of `lost r` at the restart is known by
+     `r` (and still by `i`) at idle; NOT by everybody: `splitRun`.
+  4. `splitRun` — full convergence fails with a sender restart: a announces, reaches b only, restarts; ends
+     idle (and stays idle under the PINGs that follow) with `know a = know b ≠ know c`.
+  5. `recoverRun` — non-vacuity, directly and through the theorems.
+--------------------------------------------------------------------------------------------- -/
+section ClusterRestart
+open Bobo.Lattice
+
+/-- **projection** (the run with restarts as a run of the pair model): for every ordered pair `i ≠ j` whose sender
+`i` is never restarted, the cluster run is the pair run `rprojSteps i j R0 steps` — restarts of `j` are `restartJ`,
+restarts of third instances are their RESETs at `i`'s listener —, the decision clocks of the pair run are monotone
+with the same last clock, and the ghost `owed i j` is the pair ghost `base`. -/
+theorem restart_cluster_run_is_pair_run {n : Nat} (R0 : RCluster n) (L0 : Fin n → Int) (steps : List (RStep n))
+    (hmono : RMono L0 steps) (i j : Fin n) (hij : i ≠ j) (hnr : wasRestarted i steps = false) :
+    PMono (L0 i) (rprojSteps i j R0 steps) ∧ pLastNow (L0 i) (rprojSteps i j R0 steps) = rLastNow L0 steps i ∧
+    (∃ ms, prun j.val (proj R0.c i j []) (rprojSteps i j R0 steps) = proj (rrun R0 steps).c i j ms) ∧
+    baseAfter j.val (proj R0.c i j []) (R0.owed i j) (rprojSteps i j R0 steps) = (rrun R0 steps).owed i j :=
+  ⟨(rproj_clocks i j steps R0 L0 hmono).1, (rproj_clocks i j steps R0 L0 hmono).2,
+    (rcluster_projects i j hij steps R0 [] hnr).1, (rcluster_projects i j hij steps R0 [] hnr).2⟩
+
+/-- the invariant after every run with restarts: for EVERY ordered pair (restarted sender or not) the pair
+invariants hold of the projection; `heard i j ≤ know j`; `said = lost ⊔ ownSince`. -/
+theorem restart_cluster_invariant_every_run {n : Nat} (R0 : RCluster n) (L0 : Fin n → Int) (hinit : RInit R0 L0)
+    (steps : List (RStep n)) (hmono : RMono L0 steps) : RInv (rrun R0 steps) (rLastNow L0 steps) :=
+  rinv_run steps R0 L0 hmono (rinv_init R0 L0 hinit)
+
+/-- one idle link `i → j` after a run with restarts: `j` knows what `i` announced since `i`'s last restart and what
+`i` knew when `j` last restarted (`bot` if `i` was restarted since); `i` still knows the latter. -/
+theorem idle_link_after_restarts {n : Nat} (R0 : RCluster n) (L0 : Fin n → Int) (hinit : RInit R0 L0)
+    (steps : List (RStep n)) (hmono : RMono L0 steps) (i j : Fin n) (hij : i ≠ j)
+    (L : Int) (hL : rLastNow L0 steps i ≤ L) (hidle : LinkIdle (rrun R0 steps).c L i j) :
+    (rrun R0 steps).ownSince i ≤ (rrun R0 steps).c.know j ∧
+    (rrun R0 steps).owed i j ≤ (rrun R0 steps).c.know j ∧
+    (rrun R0 steps).owed i j ≤ (rrun R0 steps).c.know i := by
+  have hinv := restart_cluster_invariant_every_run R0 L0 hinit steps hmono
+  obtain ⟨e, he, hres, hstash, hq, hw⟩ := hidle
+  simp only [stashOf, Prod.mk.injEq] at hstash
+  obtain ⟨h1, h2⟩ := rinv_idle _ _ hinv i j hij L hL e he hres hstash.1 hstash.2.1 hstash.2.2 hq hw
+  exact ⟨h1, h2, rinv_owed_le_know _ _ hinv i j hij⟩
+
+/-- **`restarted_instance_recovers_cluster`**: the cluster starts as in `idle_cluster_converged` (`RInit`).  After
+EVERY run — announcements, passes with any send outcomes, deliveries in any order, duplicates, listener steps, and
+RESTARTS of any instances, any number of times, at any points, with or without loss of what was on the wires to
+them — whose decision clocks do not go backwards per instance (a restarted instance's clock keeps running): if at
+the end every link is idle, then every instance `j` — the restarted ones included — knows everything that every
+instance `i ≠ j` that was NEVER restarted has EVER announced (`said i`, which for such an `i` is the `own i` of the
+model without restarts: `said_eq_own_of_never`). -/
+theorem restarted_instance_recovers_cluster {n : Nat} (R0 : RCluster n) (L0 : Fin n → Int) (hinit : RInit R0 L0)
+    (steps : List (RStep n)) (hmono : RMono L0 steps)
+    (L : Fin n → Int) (hL : ∀ i, rLastNow L0 steps i ≤ L i)
+    (hidle : ∀ i j, i ≠ j → LinkIdle (rrun R0 steps).c (L i) i j) :
+    ∀ i j, i ≠ j → wasRestarted i steps = false →
+      (rrun R0 steps).said i ≤ (rrun R0 steps).c.know j ∧ (rrun R0 steps).c.own i ≤ (rrun R0 steps).c.know j := by
+  intro i j hij hnr
+  have h := (idle_link_after_restarts R0 L0 hinit steps hmono i j hij (L i) (hL i) (hidle i j hij)).1
+  rw [said_eq_own_of_never R0 L0 hinit steps hmono i hnr]
+  exact ⟨h, h⟩
+
+/-- the same through the PAIR theorem `restarted_receiver_recovers`, by the whole-run projection
+`restart_cluster_run_is_pair_run`: one idle link `i → j` of a never-restarted sender. -/
+theorem restarted_instance_recovers_by_projection {n : Nat} (R0 : RCluster n) (L0 : Fin n → Int)
+    (hinit : RInit R0 L0) (steps : List (RStep n)) (hmono : RMono L0 steps) (i j : Fin n) (hij : i ≠ j)
+    (hnr : wasRestarted i steps = false) (L : Int) (hL : rLastNow L0 steps i ≤ L)
+    (hidle : LinkIdle (rrun R0 steps).c L i j) :
+    (rrun R0 steps).owed i j ≤ (rrun R0 steps).c.know j ∧ (rrun R0 steps).c.own i ≤ (rrun R0 steps).c.know j := by
+  obtain ⟨e0, he0, hself, hlc⟩ := hinit.cinit.peer0 i j hij
+  obtain ⟨hpm, hpl, ⟨ms, hproj⟩, hbase⟩ := restart_cluster_run_is_pair_run R0 L0 steps hmono i j hij hnr
+  obtain ⟨e, he, hres, hstash, hq, hw⟩ := hidle
+  rw [hinit.owed0] at hbase
+  have h := restarted_receiver_recovers j.val (proj R0.c i j []) e0 (L0 i) he0 hself hlc (hinit.cinit.own0 i) rfl
+    (hinit.cinit.epoch i) (rprojSteps i j R0 steps) hpm L (by rw [hpl]; exact hL) e (by rw [hproj]; exact he)
+    (by rw [hproj]; exact hres) hstash (by rw [hproj]; exact hq) (by rw [hproj]; exact hw)
+  rw [hproj, hbase] at h
+  have hk := (restart_cluster_invariant_every_run R0 L0 hinit steps hmono).heardK i j
+  exact ⟨le_trans h.1 hk, le_trans h.2 hk⟩
+
+/- The second half of the statement asked for —
+
+     theorem restarted_instance_knows_survivors … (hidle : every link idle) :
+         ∀ i r, i ≠ r → wasRestarted i steps = false → wasRestarted r steps = true →
+           (rrun R0 steps).c.know i ≤ (rrun R0 steps).c.know r
+
+   — is FALSE: `lateRun` below.  What a never-restarted `i` knows AT THE END may have reached it after its RESYNC
+   to `r` and from somebody who does not have it any more (`r` itself before its restart, or another restarted
+   instance).  True: everything `i` knew WHEN `r` LAST RESTARTED. -/
+
+/-- **`restarted_instance_knows_survivors_partial`**: … if at the end every link is idle, then every restarted
+instance `r` knows everything that every other instance `i` knew at the moment `r` (last) restarted — for every `i`
+that was not restarted since (in particular every never-restarted `i`).  `pre` is the run up to that restart. -/
+theorem restarted_instance_knows_survivors_partial {n : Nat} (R0 : RCluster n) (L0 : Fin n → Int)
+    (hinit : RInit R0 L0) (steps : List (RStep n)) (hmono : RMono L0 steps)
+    (L : Fin n → Int) (hL : ∀ i, rLastNow L0 steps i ≤ L i)
+    (hidle : ∀ i j, i ≠ j → LinkIdle (rrun R0 steps).c (L i) i j)
+    (pre post : List (RStep n)) (r : Fin n) (keep : Bool) (hsplit : steps = pre ++ .restart r keep :: post)
+    (hr : wasRestarted r post = false) (i : Fin n) (hir : i ≠ r) (hi : wasRestarted i post = false) :
+    (rrun R0 pre).c.know i ≤ (rrun R0 steps).c.know r ∧ (rrun R0 pre).c.know i ≤ (rrun R0 steps).c.know i := by
+  have h := idle_link_after_restarts R0 L0 hinit steps hmono i r hir (L i) (hL i) (hidle i r hir)
+  have ho : (rrun R0 steps).owed i r = (rrun R0 pre).c.know i := by
+    rw [hsplit]; exact owed_spec R0 pre post r i keep hir hi hr
+  rw [ho] at h
+  exact ⟨h.2.1, h.2.2⟩
+
+/-- **`ownSince_known_everywhere`** (what survives of a restarted sender, 1): at idle, everything ANY instance `r`
+announced since its last restart (everything it ever announced, if it was never restarted) is known by every other
+instance. -/
+theorem ownSince_known_everywhere {n : Nat} (R0 : RCluster n) (L0 : Fin n → Int) (hinit : RInit R0 L0)
+    (steps : List (RStep n)) (hmono : RMono L0 steps)
+    (L : Fin n → Int) (hL : ∀ i, rLastNow L0 steps i ≤ L i)
+    (hidle : ∀ i j, i ≠ j → LinkIdle (rrun R0 steps).c (L i) i j) :
+    ∀ r j, r ≠ j → (rrun R0 steps).ownSince r ≤ (rrun R0 steps).c.know j :=
+  fun r j hrj => (idle_link_after_restarts R0 L0 hinit steps hmono r j hrj (L r) (hL r) (hidle r j hrj)).1
+
+/-- **`lostKnown_partial`** (what survives of a restarted sender, 2): `lost r` at the end is everything `r` had ever
+announced when it last restarted; whatever part `d` of it some other instance `i` (not restarted since) knew at that
+moment is known, at idle, by `r` again and still by `i`.  By EVERYBODY: false (`splitRun`: nobody announces it
+again, and a third instance gets it only if a RESYNC happens to carry it). -/
+theorem lostKnown_partial {n : Nat} (R0 : RCluster n) (L0 : Fin n → Int)
+    (hinit : RInit R0 L0) (steps : List (RStep n)) (hmono : RMono L0 steps)
+    (L : Fin n → Int) (hL : ∀ i, rLastNow L0 steps i ≤ L i)
+    (hidle : ∀ i j, i ≠ j → LinkIdle (rrun R0 steps).c (L i) i j)
+    (pre post : List (RStep n)) (r : Fin n) (keep : Bool) (hsplit : steps = pre ++ .restart r keep :: post)
+    (hr : wasRestarted r post = false) :
+    (rrun R0 steps).lost r = (rrun R0 pre).said r ∧
+    ∀ (i : Fin n), i ≠ r → wasRestarted i post = false →
+      ∀ d, d ≤ (rrun R0 steps).lost r → d ≤ (rrun R0 pre).c.know i →
+        d ≤ (rrun R0 steps).c.know r ∧ d ≤ (rrun R0 steps).c.know i := by
+  have hpre : RMono L0 pre := by
+    have : ∀ (xs ys : List (RStep n)) (L : Fin n → Int), RMono L (xs ++ ys) → RMono L xs := by
+      intro xs
+      induction xs with
+      | nil => intro _ _ _; trivial
+      | cons x xs ih => intro ys L h; exact ⟨h.1, ih ys _ h.2⟩
+    exact this pre _ L0 (hsplit ▸ hmono)
+  refine ⟨?_, ?_⟩
+  · rw [hsplit]; exact lost_spec R0 L0 (rinv_init R0 L0 hinit) pre post hpre r keep hr
+  · intro i hir hi d _ hd
+    have h := restarted_instance_knows_survivors_partial R0 L0 hinit steps hmono L hL hidle pre post r keep hsplit hr
+      i hir hi
+    exact ⟨le_trans hd h.1, le_trans hd h.2⟩
+
+/-! ### the runs: "a", "b", "c" of `cl0` (Props/C06.lean), no ghost of a restart -/
+
+def rcl0 : RCluster 3 := ⟨cl0, fun _ => bot, fun _ => bot, fun _ _ => bot⟩
+
+theorem rcl0_init : RInit rcl0 (fun _ => 999) := ⟨cl0_init, fun _ => rfl, fun _ => rfl, fun _ _ => rfl⟩
+
+def failC (clock : Int) : Nat → Nat × Int := fun i => if i = 2 then (1, clock) else (0, clock)
+
+/-! ### full convergence FAILS with a sender restart -/
+
+/-- a announces `active 1 1`, reaches b only (the SYNC to c fails: backlog), restarts (backlog gone).  Its RESYNCs
+(snapshot: nothing) go out before b's RESYNC (snapshot: `active 1 1`) gives it back what it had announced. -/
+def splitRun : List (RStep 3) :=
+  [ .step (.say 0 ⟨[], [], [active 1 1]⟩),
+    .step (.pass 0 1000 (failC 1001)),          -- SYNC to b on the wire; SYNC to c fails: c's backlog
+    .step (.deliver 0 1 0),                      -- b knows it
+    .restart 0 false,                            -- a restarts; b and c handle its RESET
+    .step (.pass 0 1002 (fun _ => (0, 1003))),  -- a, fresh: RESYNC to b and to c, snapshot = bot
+    .step (.deliver 0 1 0),
+    .step (.deliver 0 2 0),
+    .step (.pass 1 1002 (fun _ => (0, 1003))),  -- b: RESYNC to a, snapshot = active 1 1
+    .step (.deliver 1 0 0),                      -- a knows it again — and never announces it
+    .step (.pass 2 1002 (fun _ => (0, 1003))),  -- c: RESYNC to a, snapshot = bot
+    .step (.deliver 2 0 0) ]
+
+/-- what the model says: the run ends with EVERY link idle, a and b know `active 1 1`, c knows nothing. -/
+example :
+    RMono (fun _ => 999) splitRun ∧ (∀ i, rLastNow (fun _ => 999) splitRun i ≤ 1002) ∧
+    ((rrun rcl0 (splitRun.take 2)).c.t 0).peers[2]? = some ("c", ⟨995, 1001, 0, false, [], [], [active 1 1]⟩) ∧
+    (rrun rcl0 (splitRun.take 3)).c.know 1 = active 1 1 ∧
+    -- the restart: a fresh, its RESET handled by b and c, the ghosts
+    ((rrun rcl0 (splitRun.take 4)).c.t 0).peers[2]? = some ("c", ⟨0, 0, 0, true, [], [], []⟩) ∧
+    ((rrun rcl0 (splitRun.take 4)).c.t 1).peers[0]? = some ("a", ⟨0, 0, 1, false, [], [], []⟩) ∧
+    ((rrun rcl0 (splitRun.take 4)).c.t 2).peers[0]? = some ("a", ⟨0, 0, 1, false, [], [], []⟩) ∧
+    (rrun rcl0 (splitRun.take 4)).c.know 0 = bot ∧ (rrun rcl0 (splitRun.take 4)).lost 0 = active 1 1 ∧
+    (rrun rcl0 (splitRun.take 4)).ownSince 0 = bot ∧ (rrun rcl0 (splitRun.take 4)).said 0 = active 1 1 ∧
+    (rrun rcl0 (splitRun.take 4)).owed 1 0 = active 1 1 ∧ (rrun rcl0 (splitRun.take 4)).owed 2 0 = bot ∧
+    (rrun rcl0 (splitRun.take 5)).c.wire 0 2 = [⟨[], [], [bot]⟩] ∧
+    (rrun rcl0 (splitRun.take 8)).c.wire 1 0 = [⟨[], [], [active 1 1]⟩] ∧
+    -- the end
+    (∀ i j, i ≠ j → LinkIdle (rrun rcl0 splitRun).c 1002 i j) ∧
+    wasRestarted 1 splitRun = false ∧ wasRestarted 2 splitRun = false ∧
+    (rrun rcl0 splitRun).lost 0 = active 1 1 ∧
+    (rrun rcl0 splitRun).c.know 0 = active 1 1 ∧ (rrun rcl0 splitRun).c.know 1 = active 1 1 ∧
+    (rrun rcl0 splitRun).c.know 2 = bot ∧
+    (rrun rcl0 splitRun).c.know 2 ≠ (rrun rcl0 splitRun).c.know 1 ∧
+    ¬ ((rrun rcl0 splitRun).lost 0 ≤ (rrun rcl0 splitRun).c.know 2) := by decide
+
+/-- … and it stays that way: half a minute later everybody PINGs everybody (empty payloads); all links idle
+again, c still knows nothing. -/
+example :
+    let steps : List (RStep 3) := splitRun ++
+      [ .step (.pass 0 1035 (fun _ => (0, 1036))), .step (.pass 1 1035 (fun _ => (0, 1036))),
+        .step (.pass 2 1035 (fun _ => (0, 1036))) ]
+    let drain : List (RStep 3) :=
+      [ .step (.deliver 0 1 0), .step (.deliver 0 2 0), .step (.deliver 1 0 0), .step (.deliver 1 2 0),
+        .step (.deliver 2 0 0), .step (.deliver 2 1 0) ]
+    RMono (fun _ => 999) (steps ++ drain) ∧
+    (∀ i j, i ≠ j → (rrun rcl0 steps).c.wire i j = [Msg.empty]) ∧
+    (∀ i j, i ≠ j → LinkIdle (rrun rcl0 (steps ++ drain)).c 1035 i j) ∧
+    (rrun rcl0 (steps ++ drain)).c.know 1 = active 1 1 ∧ (rrun rcl0 (steps ++ drain)).c.know 2 = bot := by decide
+
+/-! ### `know i ≤ know r` at idle (never-restarted `i`, restarted `r`) is FALSE -/
+
+/-- a announces, hands the SYNCs to the network for b and c, restarts; b and c RESYNC to it (snapshot: nothing),
+a RESYNCs to them (nothing); THEN the two SYNCs from before the restart are applied by b and c. -/
+def lateRun : List (RStep 3) :=
+  [ .step (.say 0 ⟨[], [], [active 1 1]⟩),
+    .step (.pass 0 1000 (fun _ => (0, 1001))),
+    .restart 0 true,
+    .step (.pass 1 1002 (fun _ => (0, 1003))), .step (.deliver 1 0 0),
+    .step (.pass 2 1002 (fun _ => (0, 1003))), .step (.deliver 2 0 0),
+    .step (.pass 0 1002 (fun _ => (0, 1003))), .step (.deliver 0 1 1), .step (.deliver 0 2 1),
+    .step (.deliver 0 1 0), .step (.deliver 0 2 0) ]
+
+example :
+    RMono (fun _ => 999) lateRun ∧ (∀ i, rLastNow (fun _ => 999) lateRun i ≤ 1002) ∧
+    (∀ i j, i ≠ j → LinkIdle (rrun rcl0 lateRun).c 1002 i j) ∧
+    wasRestarted 1 lateRun = false ∧ wasRestarted 0 lateRun = true ∧
+    (rrun rcl0 (lateRun.take 3)).c.wire 0 1 = [⟨[], [], [active 1 1]⟩] ∧
+    (rrun rcl0 (lateRun.take 2)).c.know 1 = bot ∧ (rrun rcl0 lateRun).owed 1 0 = bot ∧
+    (rrun rcl0 lateRun).c.know 0 = bot ∧ (rrun rcl0 lateRun).c.know 1 = active 1 1 ∧
+    (rrun rcl0 lateRun).c.know 2 = active 1 1 ∧
+    ¬ ((rrun rcl0 lateRun).c.know 1 ≤ (rrun rcl0 lateRun).c.know 0) := by decide
+
+/-! ### non-vacuity: b restarts in the middle and recovers what a had announced before -/
+
+def recoverRun : List (RStep 3) :=
+  [ .step (.say 0 ⟨[], [], [active 1 1]⟩),
+    .step (.pass 0 1000 (fun _ => (0, 1001))),
+    .step (.deliver 0 1 0),
+    .step (.deliver 0 2 0),
+    .restart 1 false,                            -- b restarts; a and c handle its RESET
+    .step (.pass 0 1002 (failB 1003)),           -- a's RESYNC to b fails
+    .step (.pass 1 1002 (fun _ => (0, 1003))),  -- b, fresh: RESYNC to a and to c (snapshot = bot)
+    .step (.deliver 1 0 0),
+    .step (.deliver 1 2 0),
+    .step (.pass 0 1005 (fun _ => (0, 1005))),  -- too early for a's next attempt
+    .step (.pass 2 1005 (fun _ => (0, 1006))),  -- c's RESYNC to b: snapshot = active 1 1 (learnt from a)
+    .step (.deliver 2 1 0),
+    .step (.pass 0 1013 (fun _ => (0, 1014))),  -- a's RESYNC to b delivered
+    .step (.redeliver 0 1 0),
+    .step (.deliver 0 1 0) ]
+
+def recoverL : Fin 3 → Int := fun i => [1013, 1002, 1005].getD i.val 0
+
+example :
+    RMono (fun _ => 999) recoverRun ∧ (∀ i, rLastNow (fun _ => 999) recoverRun i ≤ recoverL i) ∧
+    (rrun rcl0 (recoverRun.take 4)).c.know 1 = active 1 1 ∧ (rrun rcl0 (recoverRun.take 4)).c.know 2 = active 1 1 ∧
+    -- the restart
+    (rrun rcl0 (recoverRun.take 5)).c.know 1 = bot ∧ (rrun rcl0 (recoverRun.take 5)).c.heard 0 1 = bot ∧
+    ((rrun rcl0 (recoverRun.take 5)).c.t 1).queue = [] ∧
+    ((rrun rcl0 (recoverRun.take 5)).c.t 1).peers =
+      [("a", Peer.init true), ("b", Peer.init true), ("c", Peer.init true)] ∧
+    ((rrun rcl0 (recoverRun.take 5)).c.t 0).peers[1]? = some ("b", ⟨0, 0, 1, false, [], [], []⟩) ∧
+    (rrun rcl0 (recoverRun.take 5)).owed 0 1 = active 1 1 ∧ (rrun rcl0 (recoverRun.take 5)).owed 2 1 = active 1 1 ∧
+    (rrun rcl0 (recoverRun.take 5)).owed 1 0 = bot ∧
+    -- the failed RESYNC, the pass that is too early: nothing for b yet
+    (rrun rcl0 (recoverRun.take 6)).c.wire 0 1 = [] ∧ (rrun rcl0 (recoverRun.take 10)).c.wire 0 1 = [] ∧
+    (rrun rcl0 (recoverRun.take 10)).c.know 1 = bot ∧
+    -- c's RESYNC carries what c learnt from a
+    (rrun rcl0 (recoverRun.take 11)).c.wire 2 1 = [⟨[], [], [active 1 1]⟩] ∧
+    (rrun rcl0 (recoverRun.take 12)).c.know 1 = active 1 1 ∧
+    (rrun rcl0 (recoverRun.take 13)).c.wire 0 1 = [⟨[], [], [active 1 1]⟩] ∧
+    -- the end: every link idle, b has recovered a's announcement
+    (∀ i j, i ≠ j → LinkIdle (rrun rcl0 recoverRun).c (recoverL i) i j) ∧
+    wasRestarted 0 recoverRun = false ∧ wasRestarted 1 recoverRun = true ∧ wasRestarted 2 recoverRun = false ∧
+    (rrun rcl0 recoverRun).said 0 = active 1 1 ∧ active 1 1 ≠ bot ∧
+    (rrun rcl0 recoverRun).c.heard 0 1 = active 1 1 ∧
+    (rrun rcl0 recoverRun).c.know 0 = active 1 1 ∧ (rrun rcl0 recoverRun).c.know 1 = active 1 1 ∧
+    (rrun rcl0 recoverRun).c.know 2 = active 1 1 := by decide
+
+/-- … through the theorems: b knows what a ever announced, … -/
+example : (rrun rcl0 recoverRun).said 0 ≤ (rrun rcl0 recoverRun).c.know 1 :=
+  (restarted_instance_recovers_cluster rcl0 (fun _ => 999) rcl0_init recoverRun (by decide) recoverL (by decide)
+    (by decide) 0 1 (by decide) (by decide)).1
+
+/-- … and what c knew when b restarted (`pre` = the first four steps). -/
+example : (rrun rcl0 (recoverRun.take 4)).c.know 2 ≤ (rrun rcl0 recoverRun).c.know 1 :=
+  (restarted_instance_knows_survivors_partial rcl0 (fun _ => 999) rcl0_init recoverRun (by decide) recoverL (by decide)
+    (by decide) (recoverRun.take 4) (recoverRun.drop 5) 1 false rfl (by decide) 2 (by decide) (by decide)).1
+
+/-- the pair `(a, b)` of this run, as the pair model sees it: b's restart is `restartJ`. -/
+example : rprojSteps 0 1 rcl0 recoverRun =
+    [ .say ⟨[], [], [active 1 1]⟩, .pass 1000 (fun _ => (0, 1001)), .deliver 0, .restartJ false,
+      .pass 1002 (failB 1003), .learn bot, .pass 1005 (fun _ => (0, 1005)), .pass 1013 (fun _ => (0, 1014)),
+      .redeliver 0, .deliver 0 ].map id ∧
+    rprojSteps 2 0 rcl0 recoverRun =
+    [ .learn (active 1 1), .incoming 1 FLAG_RESET, .learn bot, .pass 1005 (fun _ => (0, 1006)) ].map id := by
+  refine ⟨?_, ?_⟩ <;> rfl
+
+/-- a restarted instance recovers what IT had announced, from the one peer it had reached — and here, because its
+RESYNC to the third instance goes out AFTER that, everybody ends up knowing it (compare `splitRun`). -/
+example :
+    let steps : List (RStep 3) :=
+      [ .step (.say 1 ⟨[], [halted], []⟩), .step (.pass 1 1000 (failC 1001)), .step (.deliver 1 0 0),
+        .restart 1 false,
+        .step (.pass 0 1002 (fun _ => (0, 1003))), .step (.deliver 0 1 0),     -- a's RESYNC: b has it back
+        .step (.pass 1 1002 (fun _ => (0, 1003))), .step (.deliver 1 0 0), .step (.deliver 1 2 0),
+        .step (.pass 2 1002 (fun _ => (0, 1003))), .step (.deliver 2 1 0) ]
+    RMono (fun _ => 999) steps ∧ (∀ i, rLastNow (fun _ => 999) steps i ≤ 1002) ∧
+    (∀ i j, i ≠ j → LinkIdle (rrun rcl0 steps).c 1002 i j) ∧
+    (rrun rcl0 (steps.take 4)).c.know 1 = bot ∧ (rrun rcl0 (steps.take 4)).c.know 2 = bot ∧
+    (rrun rcl0 steps).lost 1 = halted ∧ (rrun rcl0 steps).ownSince 1 = bot ∧ (rrun rcl0 steps).owed 0 1 = halted ∧
+    (rrun rcl0 steps).c.know 0 = halted ∧ (rrun rcl0 steps).c.know 1 = halted ∧
+    (rrun rcl0 steps).c.know 2 = halted := by decide
+
+end ClusterRestart
 
 end Bobo.Tcp
